@@ -63,13 +63,14 @@ class Section:
         self.group_per_page = group_per_page
         self.checksum = checksum
         self.raw_lines = []
+        self.sep = " "  # white space between an instruction word and its parameters (any run of blanks / tabs)
 
     def render(self, counter):
         out = []
-        out.append("#>CHECK_FWVER VERSIONDESC=%s" % ("*" if self.versiondesc is None else hexs(self.versiondesc)))
+        out.append("#>CHECK_FWVER%sVERSIONDESC=%s" % (self.sep, "*" if self.versiondesc is None else hexs(self.versiondesc)))
         if self.filt is not None:
-            out.append("#>SELECT FILTER=%s" % hexs(self.filt))
-        out.append("#>SELECT_IF PROTOCOL=%s" % (self.protocol if self.protocol is not None else "*"))
+            out.append("#>SELECT%sFILTER=%s" % (self.sep, hexs(self.filt)))
+        out.append("#>SELECT_IF%sPROTOCOL=%s" % (self.sep, self.protocol if self.protocol is not None else "*"))
         if self.crc is not None:
             out.append("##CRC: 0x%08X" % self.crc)
         self.raw_lines = []
